@@ -23,6 +23,22 @@ META = {
 ENTRIES = ["rtcmmessage.RTCMMessage.__init__", "rtcmreader.RTCMReader.parse", "rtcmreader.RTCMReader.read", "rtcmreader.RTCMReader.__next__", "rtcmreader.RTCMReader.__iter__"]
 
 
+def _returns_container(fi) -> bool:
+    """Every return of the function is a container built in it."""
+    def built(e, depth=0):
+        if isinstance(e, (ast.List, ast.Tuple, ast.Dict, ast.Set, ast.ListComp, ast.DictComp, ast.SetComp)):
+            return True
+        if isinstance(e, ast.Call) and isinstance(e.func, ast.Name) and e.func.id in ("list", "tuple", "sorted", "dict", "set", "frozenset", "bytes", "bytearray") and not any(isinstance(a, ast.Call) and isinstance(a.func, ast.Name) and a.func.id in ("count", "cycle", "repeat", "iter") for a in e.args):
+            return True
+        if isinstance(e, ast.Name) and depth < 2:
+            binds = [n.value for n in ast.walk(fi.node) if isinstance(n, ast.Assign) and len(n.targets) == 1 and isinstance(n.targets[0], ast.Name) and n.targets[0].id == e.id]
+            return bool(binds) and all(built(b, depth + 1) for b in binds)
+        return False
+
+    rets = [n for n in walk_no_nested(fi.node) if isinstance(n, ast.Return)]
+    return bool(rets) and all(r.value is not None and built(r.value) for r in rets)
+
+
 def _count_probe_loop(eng, f, loop) -> bool:
     """`for i in itertools.count(k):` whose body probes `getattr(obj, <name built from i>, SENTINEL)` and breaks / returns when the result `is SENTINEL`,
     or probes `getattr(obj, <name built from i>)` in a try whose AttributeError handler breaks / returns."""
@@ -207,7 +223,11 @@ def run(eng, ctx):
                     # the loop test itself may be the exit: `while len(data := read(1)) == 1:` fails on an empty result
                     tst_ = info.get("test")
                     test_exits = tst_ is not None and any(when_empty(c) is False for c in (tst_[1] if tst_[0] == "and" else (tst_,)))
-                    if test_exits or any(dep_on_cons(getattr(e, "guards", ())) and taken_when_empty(getattr(e, "guards", ())) for e in exits):
+                    def paths_of(e):
+                        d_ = getattr(e, "dnf", None)
+                        return list(d_) if d_ and len(d_) > 1 else [getattr(e, "guards", ())]
+
+                    if test_exits or any(dep_on_cons(g_) and taken_when_empty(g_) for e in exits for g_ in paths_of(e)):
                         witness = "each iteration consumes from a finite source and the loop exits when the consumer returns nothing / an incomplete item"
             # W3: probing loop ended by a designated exception
             if witness is None:
@@ -261,6 +281,11 @@ def run(eng, ctx):
             if isinstance(n, ast.For):
                 it = n.iter
                 okit = (isinstance(it, ast.Call) and norm(it.func) in ("range", "enumerate", "zip", "reversed", "sorted")) or isinstance(it, (ast.Name, ast.Attribute, ast.List, ast.Tuple, ast.Subscript)) or (isinstance(it, ast.Call) and isinstance(it.func, ast.Attribute) and it.func.attr in ("values", "items", "keys"))
+                if not okit and isinstance(it, ast.Call):
+                    # a package function that hands back a container it has built (display, comprehension, list() / tuple() / sorted() / dict() of something,
+                    # or a local bound to one of these): finite by construction
+                    tg = {t for s_ in eng.res.sites(f) if s_.node is it for t in s_.targets}
+                    okit = bool(tg) and all(_returns_container(eng.repo.funcs[t]) for t in tg if t in eng.repo.funcs) and all(t in eng.repo.funcs for t in tg)
                 if not okit and _count_probe_loop(eng, f, n):
                     ctx.ok("C04.D3", q, f"for ... in {norm(it)[:50]}", found="unbounded counter left when an attribute probe with a sentinel default finds nothing (finitely many attributes)", **eng.loc(f, n))
                 elif not okit:
